@@ -23,7 +23,9 @@ type action struct {
 }
 type pCase struct {
 	Senders [][]action `json:"senders"`
-	Downs   int        `json:"downs"` // monitored victims killed while the receiver is parked
+	Logs    int        `json:"logs"`   // log messages enqueued in phase 1 (the receiver is a logger)
+	Phase2  [][]action `json:"phase2"` // enqueued while the receiver is parked inside the first HandleLog
+	Downs   int        `json:"downs"`  // monitored victims killed while the receiver is parked
 	Tags    []string   `json:"tags,omitempty"`
 }
 
@@ -52,6 +54,28 @@ type receiver struct {
 	victims  []gen.PID
 	ready    chan struct{}
 	setupErr error
+
+	inlog       chan struct{} // closed when the first HandleLog is entered
+	release2    chan struct{}
+	parkLog     bool
+	loggedFirst bool
+}
+
+func (r *receiver) HandleLog(message gen.MessageLog) error {
+	var s, q int
+	if n, _ := fmt.Sscanf(fmt.Sprintf(message.Format, message.Args...), "vlog-%d-%d", &s, &q); n != 2 {
+		return nil
+	}
+	r.mu.Lock()
+	r.log = append(r.log, handledItem{s, 5, q})
+	first := !r.loggedFirst
+	r.loggedFirst = true
+	r.mu.Unlock()
+	if first && r.parkLog {
+		close(r.inlog)
+		<-r.release2
+	}
+	return nil
 }
 
 type setupMsg struct{}
@@ -147,6 +171,18 @@ func genPCase(r *rand.Rand) pCase {
 		c.Senders = append(c.Senders, acts)
 	}
 	c.Downs = []int{0, 0, 1, 2}[r.Intn(4)]
+	if r.Intn(2) == 0 {
+		// the receiver is also a logger: log messages (lowest class), and a second phase in which
+		// higher-class traffic arrives while the first log message is being handled
+		c.Logs = 1 + r.Intn(4)
+		for s := 0; s < 1+r.Intn(2); s++ {
+			var acts []action
+			for i := 0; i < 1+r.Intn(4); i++ {
+				acts = append(acts, action{Kind: []int{0, 0, 1, 2}[r.Intn(4)], Addr: []string{"pid", "name", "alias"}[r.Intn(3)], Seq: i})
+			}
+			c.Phase2 = append(c.Phase2, acts)
+		}
+	}
 	return c
 }
 
@@ -163,10 +199,18 @@ func runPCase(node gen.Node, c pCase) (string, error) {
 		}
 		victims = append(victims, v)
 	}
-	rc := &receiver{parked: make(chan struct{}), release: make(chan struct{}), ready: make(chan struct{}), victims: victims}
+	rc := &receiver{parked: make(chan struct{}), release: make(chan struct{}), ready: make(chan struct{}), victims: victims,
+		inlog: make(chan struct{}), release2: make(chan struct{}), parkLog: c.Logs > 0 && len(c.Phase2) > 0}
 	rpid, err := node.SpawnRegister(name, func() gen.ProcessBehavior { return rc }, gen.ProcessOptions{})
 	if err != nil {
 		return "", err
+	}
+	lname := fmt.Sprintf("vlogger%d", pseq)
+	if c.Logs > 0 {
+		if err := node.LoggerAddPID(rpid, lname, gen.LogLevelInfo); err != nil {
+			return "", err
+		}
+		defer node.LoggerDeletePID(rpid)
 	}
 	node.Send(rpid, setupMsg{})
 	select {
@@ -203,6 +247,10 @@ func runPCase(node gen.Node, c pCase) (string, error) {
 		node.Kill(v)
 		expected++
 	}
+	for i := 0; i < c.Logs; i++ {
+		node.Log().Info("vlog-%d-%d", 900, i)
+		expected++
+	}
 	for _, d := range dones {
 		select {
 		case <-d:
@@ -218,15 +266,45 @@ func runPCase(node gen.Node, c pCase) (string, error) {
 			return "", err
 		}
 		q := info.MailboxQueues
-		if int(q.Main+q.System+q.Urgent) >= expected {
+		if int(q.Main+q.System+q.Urgent+q.Log) >= expected {
 			break
 		}
 		if time.Now().After(deadline) {
-			return "", fmt.Errorf("mailbox has %d of %d expected messages", q.Main+q.System+q.Urgent, expected)
+			return "", fmt.Errorf("mailbox has %d of %d expected messages", q.Main+q.System+q.Urgent+q.Log, expected)
 		}
 		time.Sleep(time.Millisecond)
 	}
 	close(rc.release)
+	if rc.parkLog {
+		// second phase: wait until the receiver sits inside the first HandleLog, enqueue, release
+		select {
+		case <-rc.inlog:
+		case <-time.After(5 * time.Second):
+			return "", fmt.Errorf("receiver did not reach its first HandleLog")
+		}
+		exp2 := 0
+		var dones2 []chan struct{}
+		for i, acts := range c.Phase2 {
+			sp, err := node.Spawn(func() gen.ProcessBehavior { return &senderActor{} }, gen.ProcessOptions{})
+			if err != nil {
+				return "", err
+			}
+			spids = append(spids, sp)
+			d := make(chan struct{})
+			dones2 = append(dones2, d)
+			node.Send(sp, script{ID: 100 + i + 1, Actions: acts, PID: rpid, Name: name, Alias: rc.alias, Done: d})
+			exp2 += len(acts)
+		}
+		for _, d := range dones2 {
+			select {
+			case <-d:
+			case <-time.After(5 * time.Second):
+				return "", fmt.Errorf("phase-2 sender did not finish")
+			}
+		}
+		expected += exp2
+		close(rc.release2)
+	}
 	deadline = time.Now().Add(5 * time.Second)
 	for {
 		rc.mu.Lock()
@@ -260,11 +338,28 @@ func runPCase(node gen.Node, c pCase) (string, error) {
 	for _, v := range victims {
 		sent = append(sent, fmt.Sprintf("[mk_item %d 4 0]", 1000+int(v.ID%1000)))
 	}
+	if c.Logs > 0 {
+		var l []string
+		for i := 0; i < c.Logs; i++ {
+			l = append(l, fmt.Sprintf("mk_item 900 5 %d", i))
+		}
+		sent = append(sent, "["+strings.Join(l, "; ")+"]")
+	}
+	var sent2 []string
+	if rc.parkLog {
+		for i, acts := range c.Phase2 {
+			var l []string
+			for _, a := range acts {
+				l = append(l, fmt.Sprintf("mk_item %d %d %d", 100+i+1, a.Kind, a.Seq))
+			}
+			sent2 = append(sent2, "["+strings.Join(l, "; ")+"]")
+		}
+	}
 	var h []string
 	for _, x := range log {
 		h = append(h, fmt.Sprintf("mk_item %d %d %d", x.Sender, x.Kind, x.Seq))
 	}
-	return fmt.Sprintf("mk_pcase [%s] [%s]", strings.Join(sent, "; "), strings.Join(h, "; ")), nil
+	return fmt.Sprintf("mk_pcase [%s] [%s] [%s]", strings.Join(sent, "; "), strings.Join(sent2, "; "), strings.Join(h, "; ")), nil
 }
 
 func runParked(n int, out string, replay json.RawMessage) {
@@ -272,7 +367,7 @@ func runParked(n int, out string, replay json.RawMessage) {
 	opts := gen.NodeOptions{}
 	opts.Network.Mode = gen.NetworkModeDisabled
 	opts.Log.DefaultLogger.Disable = true
-	opts.Log.Level = gen.LogLevelDisabled
+	opts.Log.Level = gen.LogLevelInfo // the receiver may be a logger; the default logger is off
 	node, err := ergo.StartNode(gen.Atom(fmt.Sprintf("mbox%d@localhost", os.Getpid())), opts)
 	if err != nil {
 		panic(err)
@@ -300,6 +395,10 @@ func runParked(n int, out string, replay json.RawMessage) {
 		o.Add(term, c)
 		o.Stats[fmt.Sprintf("senders:%d", len(c.Senders))]++
 		o.Stats[fmt.Sprintf("downs:%d", c.Downs)]++
+		if c.Logs > 0 {
+			o.Stats["with-logs"]++
+			o.Stats["logs"] += c.Logs
+		}
 		for _, acts := range c.Senders {
 			for _, a := range acts {
 				o.Stats[fmt.Sprintf("kind:%d", a.Kind)]++
